@@ -148,6 +148,10 @@ func VerifC05_WiringRawPath() {
 		panic("harness program does not parse: " + err.Error())
 	}
 	path := "/" + zzverif.StringFrom("path", 5, "/ab c")
+	if zzverif.Bool("percent") {
+		// an already decoded path that still contains percent signs (the client sent %25..)
+		path = "/a/" + zzverif.StringFrom("seg", 4, "%2541a")
+	}
 	ask := func(interpreted bool) (int, interface{}) {
 		_, _, _, router, err := setupRoutes(module, "/app/main.glyph", interpreted)
 		if err != nil {
